@@ -82,6 +82,17 @@ class Tr:
             if ty == 'tupF3':
                 fail(n, 'a 3-stack can only be indexed')
             return n.id, ty
+        if isinstance(n, ast.Subscript) and isinstance(n.value, ast.Subscript):
+            # batch_to_matrices(np.array([v]))[0][0]: the square form of one vector of pair values
+            inner = n.value.value
+            if isinstance(inner, ast.Call) and call_name(inner) == 'batch_to_matrices' and len(inner.args) == 1 \
+                    and not inner.keywords and ast.unparse(n.slice) == '0' and ast.unparse(n.value.slice) == '0':
+                a = inner.args[0]
+                if isinstance(a, ast.Call) and call_name(a) == 'np.array' and len(a.args) == 1 and not a.keywords \
+                        and isinstance(a.args[0], ast.List) and len(a.args[0].elts) == 1:
+                    v, tv = self.expr(a.args[0].elts[0], env)
+                    if tv == 'vecF':
+                        return f'(py_squareform O {v})', 'mat'
         if isinstance(n, ast.Subscript):
             if isinstance(n.value, ast.Name) and env.get(n.value.id) == 'tupF3' \
                     and isinstance(n.slice, ast.Constant) and n.slice.value in (0, 1, 2):
@@ -302,6 +313,8 @@ class Tr:
                 return f'(map cdf {a})', 'vecF'
             if ta in ('F', 'Z'):
                 return f'(cdf {self.toF(a, ta, n)})', 'F'
+            if ta == 'mat':
+                return f'(np_mmap cdf {a})', 'mat'
         if name == '_verif_where' and len(args) == 3:      # X[mask] = v, rewritten by the slicer
             m, tm = self.expr(args[0], env)
             v, tv = self.expr(args[1], env)
@@ -325,6 +338,8 @@ class Tr:
             a, ta = self.expr(args[0], env)
             if ta == 'F':
                 return f'(py_abs O {a})', 'F'
+            if ta == 'mat':
+                return f'(np_mmap (py_abs O) {a})', 'mat'
         if name == 'np.log' and len(args) == 1:
             a, ta = self.expr(args[0], env)
             if ta == 'mat':
@@ -885,9 +900,9 @@ def translate_slice(spec, tree):
 
 
 HEADER = '''(* GENERATED on every run by harness/pytrans.py from {files} -- do not edit, not committed.
-   Semantics of the emitted constructs: theories/PyLib.v *)
+   Semantics of the emitted constructs: theories/PyLib.v, theories/PySquare.v *)
 From Coq Require Import List ZArith Bool.
-From RSA Require Import Prelude Vec PyLib.
+From RSA Require Import Prelude Vec PyLib PySquare.
 Import ListNotations.
 Open Scope Z_scope.
 Section Gen.
